@@ -2014,6 +2014,22 @@ class CallMixin(object):
                     st.cells[recv.id] = SeqV(z3.Concat(base, src.z) if r.items else src.z, src.elem); return [(NONE, st)]
             if name == 'sort' and isinstance(r, PyList):
                 st.cells[recv.id] = PyList(self.sort_network(r.items, st)); return [(NONE, st)]
+            if name == 'sort' and isinstance(r, SeqV) and not args and set(kw) == {'key'}:
+                # list.sort(key=functools.cmp_to_key(c)) with c a repository function under contract whose contract names its order
+                kv = self.deref(kw['key'], st)
+                cf = getattr(kv, 'cmp_of', None)
+                cc = self.reg.get(cf.fi.file, cf.fi.qualname) if cf is not None else None
+                if cc is None or getattr(cc, 'order_le', None) is None: raise Unsupported('list.sort(key=...) with a key that is not cmp_to_key of a comparator whose contract names its order')
+                self.reg.assume('A4: list.sort(key=cmp_to_key(c)) leaves a permutation of the list with c(s[i], s[j]) <= 0 for i < j (c a total preorder: its contract)')
+                srt = z3.Function('sorted_by_%s' % cf.fi.qualname, r.z.sort(), r.z.sort())(r.z)
+                i_, j_ = z3.Int('i!srt'), z3.Int('j!srt'); x = z3.Const('x!srt', r.z.sort().basis())
+                st.pc += [z3.Length(srt) == z3.Length(r.z),
+                          z3.ForAll([x], z3.Contains(srt, z3.Unit(x)) == z3.Contains(r.z, z3.Unit(x)), patterns=[z3.Contains(srt, z3.Unit(x))]),
+                          z3.ForAll([i_, j_], z3.Implies(z3.And(0 <= i_, i_ < j_, j_ < z3.Length(srt)), cc.order_le(srt[i_], srt[j_])))]
+                pm = z3.Function('sort_permutation_%s' % cf.fi.qualname, r.z.sort(), IntS, IntS)        # position in the input of the i-th element of the result
+                st.pc += [z3.ForAll([i_], z3.Implies(z3.And(0 <= i_, i_ < z3.Length(srt)), z3.And(0 <= pm(r.z, i_), pm(r.z, i_) < z3.Length(r.z), srt[i_] == r.z[pm(r.z, i_)])), patterns=[srt[i_]]),
+                          z3.ForAll([i_, j_], z3.Implies(z3.And(0 <= i_, i_ < j_, j_ < z3.Length(srt)), pm(r.z, i_) != pm(r.z, j_)))]
+                st.cells[recv.id] = SeqV(srt, r.elem); return [(NONE, st)]
             if name == 'sort' and isinstance(r, SeqV) and not args and not kw:
                 self.reg.assume('A4: list.sort() leaves the ordered permutation of the list (uninterpreted function sorted_seq with that meaning)')
                 st.cells[recv.id] = SeqV(sorted_seq_fn(r.z.sort())(r.z), r.elem); return [(NONE, st)]
@@ -2446,6 +2462,8 @@ class CallMixin(object):
                 self.reg.assume('A4: bisect.bisect_left on the x components (uninterpreted index function characterised by the bisect axioms in the precondition)')
                 return [(Sc(BIS(a.xproxy_of, self.as_real(self.deref(args[1], st))), 'int'), st)]
             raise Unsupported('bisect_left over %r' % (a,))
+        if mod == 'functools' and name == 'cmp_to_key' and len(args) == 1 and isinstance(self.deref(args[0], st), FuncV):
+            k_ = Builtin('cmp_to_key_object'); k_.cmp_of = self.deref(args[0], st); return [(k_, st)]
         if mod == 're' and name == 'compile' and len(args) == 1 and isinstance(self.deref(args[0], st), PyStr):
             return [(PyRegex(self.deref(args[0], st).s), st)]
         if mod == 'functools' and name == 'reduce' and len(args) == 2:
